@@ -27,7 +27,19 @@ def run(ctx):
         for w in range(0, nf, per):
             jobs.append(lambda b=b, w=w, per=per: vf.run_resumable(
                 ctx, b, ["--seed", ctx.seed], w, per, timeout=1200, tag="pool", crash_key=_crash_key))
-    for rrs in vf.run_many(ctx, jobs):
+    # long-task family: tasks that outlive the fixed waits inside shutdown()/the destructor/drain(); one
+    # process per variant (each takes 5.5-8 s of wall time, mostly asleep), started first so that they overlap
+    # the scenario sweep
+    nlong = 8
+    long_jobs = []
+    for fl in (["plain", "asan"] if thorough else ["plain"]):
+        b = bins[("c09_pool", fl)]
+        for rep in range(3 if thorough and fl == "plain" else 1):
+            for v in range(nlong):
+                long_jobs.append(lambda b=b, v=v, rep=rep: vf.run_resumable(
+                    ctx, b, ["--seed", int(ctx.seed) + 1000 * rep, "--long", 1], v, 1, timeout=400, tag=f"long{rep}", crash_key=_crash_key))
+    jobs = long_jobs + jobs
+    for rrs in vf.run_many(ctx, jobs, workers=16 + len(long_jobs)):
         for rr in rrs:
             ctx.ingest(rr, where=f"(pool, {rr.flavor})")
             if getattr(rr, "bad", None):
@@ -36,7 +48,10 @@ def run(ctx):
                 "{tight spin-barrier burst | streams | streams racing stop() | submissions around the idle-exit instant}, "
                 "task kinds {quick, sleep, throw, nested submit, latch}, API mix enqueue/tryEnqueue/enqueueWithResult, "
                 "shutdown kind {destructor | stop | drain+stop | stop racing submitters | shutdown() racing submitters}); distinct = hash of those "
-                "coordinates plus (refusal seen?, throwing task seen?, concurrency high-water mark)")
+                "coordinates plus (refusal seen?, throwing task seen?, concurrency high-water mark). Long-task family: every worker busy with a "
+                "task of 5.35-7.6 s (on either side of shutdown()'s 5 s + 1 s waits and the destructor's 5 s drain phase) with quick tasks queued "
+                "behind it, torn down by shutdown() / a timed-out drain() followed by stop() / stop() from Running / the destructor: the call may "
+                "only return (or report success) after every accepted task has finished, nothing starts afterwards")
     ctx.assumptions = [
         "task bodies are bounded (latched tasks give up after 20 s); DETACHED shutdown mode is excluded (documented as leaking)",
         "the pool object is never destroyed while a submitter may still call into it (that would be the caller's UB); stop() may race submitters",
@@ -45,4 +60,38 @@ def run(ctx):
     ctx.require_obs("scenarios", "tasks_accepted", "tasks_refused", "tasks_throwing", "shutdown_kind_destructor",
                     "shutdown_kind_stop", "shutdown_kind_drain_stop", "shutdown_kind_stop_racing_submitters", "shutdown_kind_shutdown_racing_submitters", "submitter_pre_lock_delays",
                     "pattern_tight_burst", "pattern_idle_exit_race", "scenarios_reaching_max_threads",
-                    "late_submission_refused_cleanly", "condvar_prepark_delays", "thread_create_delays", "worker_post_unlock_delays")
+                    "late_submission_refused_cleanly", "condvar_prepark_delays", "thread_create_delays", "worker_post_unlock_delays",
+                    "long_scenarios", "long_shutdown", "long_destructor", "long_stop", "long_stop-after-timed-out-drain", "long_drain_timed_out_before_stop")
+
+
+def replay(ctx, path):
+    """Re-run what a replay file names: the long-task variant or the scenario index (repeated, since the
+    interleaving is not replayable), else the whole tier with the recorded seed."""
+    import json
+    with open(path) as fh:
+        rp = json.load(fh)
+    d = (rp.get("first") or {}).get("detail") or {}
+    if not isinstance(d, dict):
+        d = {}
+    seed = d.get("seed", rp.get("seed", ctx.seed))
+    if "variant" not in d and "scenario" not in d:
+        ctx.seed, ctx.tier = rp.get("seed", ctx.seed), rp.get("tier", ctx.tier)
+        return run(ctx)
+    bins = vf.build_many([("c09_pool", f) for f in ("plain", "tsan")])
+    jobs = []
+    if "variant" in d:
+        for rep in range(3):
+            jobs.append(lambda rep=rep: vf.run_resumable(ctx, bins[("c09_pool", "plain")], ["--seed", seed, "--long", 1],
+                                                         int(d["variant"]), 1, timeout=400, tag=f"rlong{rep}", crash_key=_crash_key))
+        ctx.rule = f"replay of long-task variant {d['variant']} seed {seed} (3 runs)"
+    else:
+        for fl, reps in (("plain", 30), ("tsan", 10)):
+            for rep in range(reps):
+                jobs.append(lambda fl=fl, rep=rep: vf.run_resumable(ctx, bins[("c09_pool", fl)], ["--seed", seed],
+                                                                    int(d["scenario"]), 1, timeout=600, tag=f"rs{rep}", crash_key=_crash_key))
+        ctx.rule = f"replay of scenario {d['scenario']} seed {seed} (30 plain + 10 tsan runs; the schedule itself is not replayable)"
+    for rrs in vf.run_many(ctx, jobs):
+        for rr in rrs:
+            ctx.ingest(rr, where=f"(replay, {rr.flavor})")
+            if getattr(rr, "bad", None):
+                ctx.inconcl(rr.bad)
